@@ -1,26 +1,31 @@
 #!/bin/sh
-# MANIFEST.setup_cmd: build the framework offline from files on disk.
-set -e
+# MANIFEST.setup_cmd: build the framework offline from files on disk. Every check rebuilds what it
+# needs from /repo's working tree anyway; setup only warms the caches, so a component that does not
+# build is reported here and by its own check, not fatal for the others.
 cd "$(dirname "$0")"
 export GOFLAGS=-mod=mod GOPROXY=off
 unset GOSUMDB
 mkdir -p bin work evidence
-(cd tools/go2lean && go build -o ../../bin/go2lean .)
-bin/go2lean /repo tools/go2lean/targets.json lean/F3/Gen/Core.lean
-python3 -c "import sys; sys.path.insert(0, \".\"); from checks import common; common.gen_lakefile()"
-for p in lean/F3/Props/*.lean; do (cd lean && lake build F3.Props.$(basename $p .lean)) || echo "WARN: $p does not build"; done
-for d in lean/Driver/*.lean; do a=$(basename $d .lean); [ "$a" = Util ] || (cd lean && lake build f3d_$(echo $a | tr A-Z a-z)); done
-# warm the Go build cache for the harnesses (compiles go-f3 with the verif tag)
+(cd tools/go2lean && go build -o ../../bin/go2lean .) || { echo "FATAL: translator does not build"; exit 1; }
 python3 - <<'PY'
-import sys, os
+import sys, os, glob, subprocess
 sys.path.insert(0, os.getcwd())
 from checks import common
-import glob
+with common.Lock():
+    common.gen_lakefile()
+    ok, msg = common.regen()
+    print("regen", "ok" if ok else "FAILED " + msg)
+# optional per-area generators (e.g. schema facts) run inside their own checks
+mods = sorted(os.path.splitext(os.path.basename(p))[0] for p in glob.glob("lean/F3/Props/*.lean"))
+for m in mods:
+    rc, out = common.lake_build(["F3.Props." + m])
+    print("lean F3.Props." + m, "ok" if rc == 0 else "DOES NOT BUILD (its check will report)")
+for a in common.gen_lakefile():
+    p, out = common.build_driver(a)
+    print("driver", a, "ok" if p else "DOES NOT BUILD")
 for d in sorted(glob.glob("harness/cmd/*")):
     name = os.path.basename(d)
     p, out = common.build_harness(name)
-    print("harness", name, "ok" if p else "FAILED\n" + out[-2000:])
-    if not p:
-        sys.exit(1)
+    print("harness", name, "ok" if p else "DOES NOT BUILD\n" + out[-800:])
 PY
 echo setup done
